@@ -138,6 +138,7 @@ def judge(ctx, traces, verdicts):
                         line['ev'], ','.join(line['args']), line['res'], v['i'], t['tid']),
                     replay_payload=dict(kind='owners', property='C14', clause=f,
                                         history=t['history'][:v['i']], failed_step=v['i'])))
+    violations.sort(key=lambda x: len(x['replay_payload']['history']))   # shortest first
     samples = []
     for t in traces:
         if core.hist_hash(t['history']) in nontrivial:
@@ -181,5 +182,63 @@ def replay(ctx, path):
             ctx.log(json.dumps(line, sort_keys=True))
         verdicts, _ = od.validate(traces)
         return judge(ctx, traces, verdicts)
+    finally:
+        _tmp_env_done(jtmp, old)
+
+
+# ---------------------------------------------------------------------------
+# ./check C14 --selftest : trace corruption (DESIGN 4.4) -- TLC must name the clause
+def selftest(ctx):
+    import copy
+    h = [('OwnerAppears', ['o1']), ('OwnerAppears', ['o2']), ('VipAlloc', ['o1']), ('VipAlloc', ['o2']),
+         ('VipFree', ['o2', '192.168.0.1']), ('OwnerDisappears', ['o2']), ('VipGC', []),
+         ('RuleCreate', ['o1', 'r1']), ('RuleCreate', ['o2', 'r1'])]
+    jtmp, old = _tmp_env()
+    try:
+        good = od.replay(h)
+
+        def c_free(line):       # the foreign free "worked"
+            line['post']['vips'] = [p for p in line['post']['vips'] if p[0] != '192.168.0.1']
+
+        def c_repoint(line):    # o2's allocation was given o1's address
+            line['res'] = '192.168.0.1'
+            line['post']['vips'] = [['192.168.0.1', 'o2']]
+
+        def c_cidr(line):       # an address outside the network was handed out
+            line['res'] = '10.9.9.9'
+            line['post']['vips'] = [['192.168.0.1', 'o1'], ['10.9.9.9', 'o2']]
+
+        def c_gc_keep(line):    # the orphan survived the collection
+            line['post']['vips'] = [['192.168.0.1', 'o1'], ['192.168.0.2', 'o2']]
+
+        def c_gc_all(line):     # the collection also took a live owner's entry
+            line['post']['vips'] = []
+
+        def c_rule(line):       # o2's create of o1's rule "succeeded"
+            line['res'] = 'ok'
+            line['post']['rules'] = [['r1', 'o2']]
+        cases = [('foreign-free', 5, c_free, 'C14.ownerOnly'), ('repoint', 4, c_repoint, 'C14.oneOwner'),
+                 ('outside', 4, c_cidr, 'C14.inCidr'), ('gc-keeps-orphan', 7, c_gc_keep, 'C14.gcExact'),
+                 ('gc-takes-live', 7, c_gc_all, 'C14.gcExact'), ('rule-overwrite', 9, c_rule, 'C14.oneOwner')]
+        traces = [dict(tid='good', lines=good)]
+        for name, idx, fn, _ in cases:
+            lines = copy.deepcopy(good)
+            fn(lines[idx])
+            traces.append(dict(tid=name, lines=lines))
+        verdicts, _ = od.validate(traces)
+        by = {(v['tid'], v['i']): v for v in verdicts}
+        bad = [v for v in verdicts if v['tid'] == 'good' and v['fail']]
+        ok = not bad
+        if bad:
+            ctx.log('SELFTEST: the uncorrupted trace is not clean: %r' % bad)
+        for name, idx, _, clause in cases:
+            got = by[(name, idx)]['fail']
+            hit = clause in got
+            ok = ok and hit
+            ctx.log('SELFTEST corruption %-16s line %d (%s): TLC names %s -> %s' % (
+                name, idx, good[idx]['ev'], got, 'ok' if hit else 'MISSING ' + clause))
+        if not ok:
+            raise tlc.MachineryError('selftest: a corrupted trace was not rejected with the expected clause')
+        return 0
     finally:
         _tmp_env_done(jtmp, old)
